@@ -169,7 +169,7 @@ func (ai *allocImpl) indexProof(ex *Explorer, st *State, idx ssa.Value, wantSet 
 		return false, "the Test was made outside the current critical section (before the lock / before an unlock)"
 	}
 	if !wantSet {
-		m := regexp.MustCompile(`^(\(\*` + reQ(pkgBitset) + `\.BitSet\)\.NextClear(@t\d+)?\(` + reQ(recv) + `,[^)]*\))#0$`).FindStringSubmatch(ic)
+		m := regexp.MustCompile(`^(\(\*` + reQ(pkgBitset) + `\.BitSet\)\.NextClear(@(?:[\w$]+·)?t\d+)?\(` + reQ(recv) + `,[^)]*\))#0$`).FindStringSubmatch(ic)
 		if m != nil {
 			if f, ok := st.live["b:"+m[1]+"#1"]; ok && f.Val && inSection(f) {
 				return true, "index is NextClear's result on its ok edge in this critical section"
@@ -335,11 +335,11 @@ func ruleAllocate(c *Ctx, prefix string, ai *allocImpl, want map[string]bool) {
 		if regexp.MustCompile(`Allocator\)\.toIndex`).MatchString(fnCalls(fn)) {
 			to16, _ := histFact(st, "nil", regexp.MustCompile(`^\(net\.IP\)\.To16\(\$1\.IP\)$`))
 			cont, _ := histFact(st, "bool", regexp.MustCompile(`^\(\*net\.IPNet\)\.Contains\(&\$0\.`+`[A-Za-z_]+`+`,\$1\.IP\)$`))
-			terr, _ := histFact(st, "nil", regexp.MustCompile(`\.toIndex(@t\d+)?\(\$0,\$1\.IP\)#1$`))
-			tst, _ := histFact(st, "bool", regexp.MustCompile(`^\(\*`+reQ(pkgBitset)+`\.BitSet\)\.Test\(\$0\.`+ai.Bitmap+`,conv<uint>\(.*\.toIndex(@t\d+)?\(\$0,\$1\.IP\)#0\)\)$|^\(\*`+reQ(pkgBitset)+`\.BitSet\)\.Test\(\$0\.`+ai.Bitmap+`,.*\.toIndex(@t\d+)?\(\$0,\$1\.IP\)#0\)$`))
+			terr, _ := histFact(st, "nil", regexp.MustCompile(`\.toIndex(@(?:[\w$]+·)?t\d+)?\(\$0,\$1\.IP\)#1$`))
+			tst, _ := histFact(st, "bool", regexp.MustCompile(`^\(\*`+reQ(pkgBitset)+`\.BitSet\)\.Test\(\$0\.`+ai.Bitmap+`,conv<uint>\(.*\.toIndex(@(?:[\w$]+·)?t\d+)?\(\$0,\$1\.IP\)#0\)\)$|^\(\*`+reQ(pkgBitset)+`\.BitSet\)\.Test\(\$0\.`+ai.Bitmap+`,.*\.toIndex(@(?:[\w$]+·)?t\d+)?\(\$0,\$1\.IP\)#0\)$`))
 			return and3(not3(to16), cont, terr, not3(tst))
 		}
-		tst, _ := histFact(st, "bool", regexp.MustCompile(`^\(\*`+reQ(pkgBitset)+`\.BitSet\)\.Test\(\$0\.`+ai.Bitmap+`,.*\.toOffset(@t\d+)?\(\$0,\$1\.IP\)#0\)$`))
+		tst, _ := histFact(st, "bool", regexp.MustCompile(`^\(\*`+reQ(pkgBitset)+`\.BitSet\)\.Test\(\$0\.`+ai.Bitmap+`,.*\.toOffset(@(?:[\w$]+·)?t\d+)?\(\$0,\$1\.IP\)#0\)$`))
 		return not3(tst)
 	}
 	ex.Hooks.Instr = func(st *State, in ssa.Instruction) {
@@ -425,7 +425,7 @@ func ruleAllocate(c *Ctx, prefix string, ai *allocImpl, want map[string]bool) {
 		ipC := ""
 		if ld, ok := ret.Results[0].(*ssa.UnOp); ok {
 			if al, ok := ld.X.(*ssa.Alloc); ok {
-				ipC, _ = st.ReadLocal("new@" + al.Name() + ".IP")
+				ipC, _ = st.ReadLocal("new@" + anm(al) + ".IP")
 			}
 		}
 		if defErr {
@@ -434,7 +434,7 @@ func ruleAllocate(c *Ctx, prefix string, ai *allocImpl, want map[string]bool) {
 			}
 			if isNoAddr {
 				nFull++
-				ncok, _ := histFact(st, "bool", regexp.MustCompile(`NextClear(@t\d+)?\(\$0\.`+ai.Bitmap+`,0\)#1$`))
+				ncok, _ := histFact(st, "bool", regexp.MustCompile(`NextClear(@(?:[\w$]+·)?t\d+)?\(\$0\.`+ai.Bitmap+`,0\)#1$`))
 				if ncok != 0 && len(fullBad) < 4 {
 					fullBad = append(fullBad, fmt.Sprintf("ErrNoAddrAvail returned at %s on a path where the first-free search did not fail (ok=%s)", c.P.InstrPos(in), tri(ncok)))
 				}
@@ -453,7 +453,7 @@ func ruleAllocate(c *Ctx, prefix string, ai *allocImpl, want map[string]bool) {
 		}
 		i := out[0]
 		okIP := ipC == "(*"+ai.T.Obj().Pkg().Path()+"."+ai.T.Obj().Name()+").toIP($0,conv<uint32>("+i+"))" ||
-			regexp.MustCompile(`^\(\*`+reQ(ai.T.Obj().Pkg().Path()+"."+ai.T.Obj().Name())+`\)\.to(Prefix|IP)(@t\d+)?\(\$0,(conv<[a-z0-9]+>\()?`+reQ(i)+`\)?\)(#0)?$`).MatchString(ipC)
+			regexp.MustCompile(`^\(\*`+reQ(ai.T.Obj().Pkg().Path()+"."+ai.T.Obj().Name())+`\)\.to(Prefix|IP)(@(?:[\w$]+·)?t\d+)?\(\$0,(conv<[a-z0-9]+>\()?`+reQ(i)+`\)?\)(#0)?$`).MatchString(ipC)
 		if !okIP && len(exitBad) < 4 {
 			exitBad = append(exitBad, fmt.Sprintf("return at %s: the address returned (%s) is not the index→address conversion of the bit that was set (%s)", c.P.InstrPos(in), shortName(stripAt(ipC)), shortName(i)))
 		}
@@ -462,7 +462,7 @@ func ruleAllocate(c *Ctx, prefix string, ai *allocImpl, want map[string]bool) {
 			if st.seen["nextclear"] && len(hintBad) < 3 {
 				hintBad = append(hintBad, "first-free search executed although the hint is usable")
 			}
-			if !regexp.MustCompile(`\.to(Index|Offset)(@t\d+)?\(\$0,\$1\.IP\)#0`).MatchString(i) && len(hintBad) < 3 {
+			if !regexp.MustCompile(`\.to(Index|Offset)(@(?:[\w$]+·)?t\d+)?\(\$0,\$1\.IP\)#0`).MatchString(i) && len(hintBad) < 3 {
 				hintBad = append(hintBad, fmt.Sprintf("hint usable but the bit set is %s, not the hint's index", shortName(i)))
 			}
 		}
@@ -591,7 +591,7 @@ func ruleFree(c *Ctx, prefix string, ai *allocImpl) {
 				idxSites[in] = r
 			}
 			r.n++
-			if m := regexp.MustCompile(`(\(\*[^()]*\)\.toIndex(@t\d+)?\(\$0,(.*)\))#0`).FindStringSubmatch(ic); m != nil {
+			if m := regexp.MustCompile(`(\(\*[^()]*\)\.toIndex(@(?:[\w$]+·)?t\d+)?\(\$0,(.*)\))#0`).FindStringSubmatch(ic); m != nil {
 				arg := m[3]
 				errNil, _ := histFact(st, "nil", regexp.MustCompile(`^`+reQ(m[1])+`#1$`))
 				cont, _ := histFact(st, "bool", regexp.MustCompile(`^\(\*net\.IPNet\)\.Contains\(&\$0\.[A-Za-z_]+,`+reQ(arg)+`\)$`))
@@ -613,7 +613,7 @@ func ruleFree(c *Ctx, prefix string, ai *allocImpl) {
 				} else if and3(errNil, cont) != 1 {
 					r.bad = fmt.Sprintf("the bitmap is indexed with toIndex(%s), an absolute distance from the pool base, without establishing that the address lies inside the pool (Contains=%s, conversion-ok=%s): a prefix below the base maps onto another client's block", shortName(arg), tri(cont), tri(errNil))
 				}
-			} else if m := regexp.MustCompile(`(\(\*[^()]*\)\.toOffset(@t\d+)?\(\$0,.*\))#0`).FindStringSubmatch(ic); m != nil {
+			} else if m := regexp.MustCompile(`(\(\*[^()]*\)\.toOffset(@(?:[\w$]+·)?t\d+)?\(\$0,.*\))#0`).FindStringSubmatch(ic); m != nil {
 				errNil, _ := histFact(st, "nil", regexp.MustCompile(`^`+reQ(m[1])+`#1$`))
 				if errNil != 1 {
 					r.bad = "the bitmap is indexed with toOffset's result although its range test did not succeed (error ignored)"
@@ -746,10 +746,12 @@ func ruleRangeRestart(c *Ctx, rule string) {
 	c.R.Functions[shortFn(fn)] = true
 	ex := NewExplorer(c.P, c.Pure, fn)
 	var alloc *ssa.Call
-	for _, b := range fn.Blocks {
-		for _, in := range b.Instrs {
-			if call, ok := in.(*ssa.Call); ok && call.Call.IsInvoke() && call.Call.Method.Name() == "Allocate" {
-				alloc = call
+	for _, f := range withInlinedHelpers(fn, 2) {
+		for _, b := range f.Blocks {
+			for _, in := range b.Instrs {
+				if call, ok := in.(*ssa.Call); ok && call.Call.IsInvoke() && call.Call.Method.Name() == "Allocate" {
+					alloc = call
+				}
 			}
 		}
 	}
@@ -758,7 +760,7 @@ func ruleRangeRestart(c *Ctx, rule string) {
 		c.R.bad(rule, key, c.P.Pos(fn.Pos()), shortFn(fn), "setup does not re-allocate stored leases: after a restart the allocator would hand stored addresses to new clients")
 		return
 	}
-	info := InfoOf(fn)
+	info := InfoOf(alloc.Parent())
 	hdr := -1
 	for h, body := range info.LoopOf {
 		if body[alloc.Block().Index] {
@@ -792,18 +794,18 @@ func ruleRangeRestart(c *Ctx, rule string) {
 		hint := ""
 		if ld, ok := alloc.Call.Args[0].(*ssa.UnOp); ok {
 			if al, ok := ld.X.(*ssa.Alloc); ok {
-				hint, _ = st.ReadLocal("new@" + al.Name() + ".IP")
+				hint, _ = st.ReadLocal("new@" + anm(al) + ".IP")
 			}
 		}
-		if !regexp.MustCompile(`^next@t\d+#2\.IP$`).MatchString(hint) {
+		if !regexp.MustCompile(`^next@(?:[\w$]+·)?t\d+#2\.IP$`).MatchString(hint) {
 			addp("the hint is not the stored address of the record being restored: " + shortName(hint))
 		}
-		if v, _ := histFact(st, "nil", regexp.MustCompile(`loadRecords(@t\d+)?\(.*\)#1$`)); v != 1 {
+		if v, _ := histFact(st, "nil", regexp.MustCompile(`loadRecords(@(?:[\w$]+·)?t\d+)?\(.*\)#1$`)); v != 1 {
 			addp("leases are re-marked without loadRecords having succeeded")
 		}
 	}
 	ex.Hooks.BackEdge = func(st *State, from, header *ssa.BasicBlock) {
-		if header.Index != hdr {
+		if header.Index != hdr || header.Parent() != alloc.Parent() {
 			return
 		}
 		iters++
@@ -836,4 +838,30 @@ func ruleRangeRestart(c *Ctx, rule string) {
 	} else {
 		c.R.ok(rule, key, c.P.InstrPos(alloc), shortFn(fn), "every stored lease is re-allocated with its stored address as hint; an error or a different answer aborts start-up")
 	}
+}
+
+// withInlinedHelpers: fn plus the same-package helpers the explorer would
+// explore inline from it (to the given depth).
+func withInlinedHelpers(fn *ssa.Function, depth int) []*ssa.Function {
+	out := []*ssa.Function{fn}
+	seen := map[*ssa.Function]bool{fn: true}
+	var walk func(f *ssa.Function, d int)
+	walk = func(f *ssa.Function, d int) {
+		if d <= 0 {
+			return
+		}
+		for _, b := range f.Blocks {
+			for _, in := range b.Instrs {
+				if call, ok := in.(*ssa.Call); ok {
+					if g := call.Call.StaticCallee(); g != nil && !seen[g] && len(g.Blocks) > 0 && defaultInline(f, g) {
+						seen[g] = true
+						out = append(out, g)
+						walk(g, d-1)
+					}
+				}
+			}
+		}
+	}
+	walk(fn, depth)
+	return out
 }
